@@ -1,6 +1,7 @@
 package rules
 
 import (
+	"go/constant"
 	"fmt"
 	"go/ast"
 	"go/token"
@@ -480,6 +481,12 @@ func ruleTK(parts ...string) Rule {
 						if c.allDigitsGuard(info, gd) {
 							digits = true
 						}
+						// ... or a call of a helper that is the digit loop
+						if call, ok := ast.Unparen(gd.cond).(*ast.CallExpr); ok && gd.pos {
+							if fo := core.StaticCallee(info, call); fo != nil && c.allDigitsHelper(c.P.FuncOf(fo)) {
+								digits = true
+							}
+						}
 					}
 					if one && lit && digits {
 						rr.OK(raw, key, r.Pos(), "ascii-digits", "a single literal that a loop has checked to consist of '0'..'9' only")
@@ -696,12 +703,53 @@ func (c *Ctx) notDigitPredicate(info *types.Info, call *ast.CallExpr) bool {
 }
 
 func asciiDigitLoop(info *types.Info, rs *ast.RangeStmt) bool {
+	return asciiDigitLoopReturning(info, rs, "WORD")
+}
+
+// allDigitsHelper: h is `func(s string) bool { for _, r := range s { if r is not '0'..'9' { return false } }; return true }`.
+func (c *Ctx) allDigitsHelper(h *core.Func) bool {
+	if h == nil || h.Body == nil || h.Decl == nil || len(h.Body.List) != 2 {
+		return false
+	}
+	ret, ok2 := h.Body.List[1].(*ast.ReturnStmt)
+	if !ok2 || len(ret.Results) != 1 || exprStr(ret.Results[0]) != "true" {
+		return false
+	}
+	switch loop := h.Body.List[0].(type) {
+	case *ast.RangeStmt:
+		return asciiDigitLoopReturning(h.Info(), loop, "false")
+	case *ast.ForStmt:
+		// for i := 0; i < len(s); i++ { if s[i] < '0' || '9' < s[i] { return false } }
+		if !countedLoop(h.Info(), loop) {
+			return false
+		}
+		var elem string
+		ast.Inspect(loop.Body, func(n ast.Node) bool {
+			if ix, ok := n.(*ast.IndexExpr); ok && elem == "" {
+				if t := h.Info().TypeOf(ix.X); t != nil {
+					if b, isB := t.Underlying().(*types.Basic); isB && b.Info()&types.IsString != 0 {
+						elem = exprStr(ix)
+					}
+				}
+			}
+			return true
+		})
+		return elem != "" && digitTestBody(h.Info(), loop.Body, elem, "false")
+	}
+	return false
+}
+
+func asciiDigitLoopReturning(info *types.Info, rs *ast.RangeStmt, what string) bool {
 	if rs.Value == nil {
 		return false
 	}
-	r := exprStr(rs.Value)
+	return digitTestBody(info, rs.Body, exprStr(rs.Value), what)
+}
+
+// digitTestBody: body contains `if <r is not in '0'..'9'> { return what }`.
+func digitTestBody(info *types.Info, body *ast.BlockStmt, r, what string) bool {
 	ok := false
-	ast.Inspect(rs.Body, func(n ast.Node) bool {
+	ast.Inspect(body, func(n ast.Node) bool {
 		ifs, isIf := n.(*ast.IfStmt)
 		if !isIf {
 			return true
@@ -742,7 +790,7 @@ func asciiDigitLoop(info *types.Info, rs *ast.RangeStmt) bool {
 		}
 		returnsWord := false
 		for _, s := range ifs.Body.List {
-			if rt, isRet := s.(*ast.ReturnStmt); isRet && len(rt.Results) == 1 && exprStr(returnedToken(rt)) == "WORD" {
+			if rt, isRet := s.(*ast.ReturnStmt); isRet && len(rt.Results) == 1 && exprStr(returnedToken(rt)) == what {
 				returnsWord = true
 			}
 		}
@@ -1029,24 +1077,14 @@ func ruleLX(parts ...string) Rule {
 
 func ruleAR3() Rule {
 	return Rule{ID: "AR3", Kind: "must", Floor: 4,
-		Doc: "in the reductions of &&, || and ?: the value of a lazily evaluated operand is fetched (expand) only under the test of the deciding operand, or while the operand's gate (see AR) is still the one consulted by every variable read, so a non-numeric variable in the operand C would skip raises no error",
+		Doc: "in the reductions of &&, || and ?: the value of a lazily evaluated operand is fetched (expand) only on paths that have compared the deciding operand's value with 0 and found the operand to be the one C evaluates, or while the operand's gate (see AR) is still open and every variable read is conditional on the gate; so a non-numeric variable in the operand C would skip raises no error. The actions are followed path by path with the helpers they call inlined",
 		Run: func(c *Ctx, rr *core.RuleResult) {
 			gi := c.grammar("interp")
 			if gi.Err != nil {
 				rr.Unkp(c.P, "interp|grammar", 0, gi.Err.Error())
 				return
 			}
-			info := c.P.Pkgs["interp"].TypesInfo
-			exp := c.fn("interp.expand")
 			g := c.gate()
-			// operands by the production that holds them
-			type at struct {
-				n, idx int
-			}
-			lazy := map[at]*lazyOperand{}
-			for _, o := range g.operands {
-				lazy[at{o.holder.prod.N, o.holder.idx}] = o
-			}
 			// with a gate, reads are conditional on it whoever fetches
 			readsGated := false
 			if g.enter != nil && g.leave != nil && g.dead != nil {
@@ -1064,55 +1102,85 @@ func ruleAR3() Rule {
 					readsGated = false
 				}
 			}
-			for _, p := range gi.G.Prods {
-				cc := gi.Checked.Cases[p.N]
+			zero := constant.MakeInt64(0)
+			for _, o := range g.operands {
+				h := o.holder.prod
+				cc := gi.Checked.Cases[h.N]
 				if cc == nil {
 					continue
 				}
-				ast.Inspect(cc, func(n ast.Node) bool {
-					call, ok := n.(*ast.CallExpr)
-					if !ok || len(call.Args) != 2 {
-						return true
-					}
-					if fo := core.StaticCallee(info, call); fo == nil || c.P.FuncOf(fo) != exp {
-						return true
-					}
-					i, _, isVal, ok := dollar(call.Args[1])
-					if !ok || isVal {
-						return true
-					}
-					o := lazy[at{p.N, i}]
-					if o == nil {
-						return true
-					}
-					key := fmt.Sprintf("interp|action of `%s` reads operand %d lazily", p, i)
-					// some enclosing guard must test a value obtained from operand 1
-					ok = false
-					for _, gd := range guardsOf(c.P, call, cc) {
-						if mentionsZeroTest(gd.cond) {
-							ok = true
+				key := fmt.Sprintf("interp|action of `%s` reads operand %d lazily", h, o.holder.idx)
+				w := c.gateWalk(g, h)
+				if w.why != "" {
+					rr.Unkp(c.P, key, cc.Pos(), "the action could not be followed: "+w.why)
+					continue
+				}
+				isD, _ := c.decidingPreds(g, h, 0)
+				prefix := fmt.Sprintf("$%d.", o.holder.idx)
+				fetches, guarded, gatedFetch := 0, 0, 0
+				var badPos token.Pos
+				for _, p := range w.paths {
+					firstLeave := -1
+					for i, ev := range p.events {
+						if ev.kind == "leave" && firstLeave < 0 {
+							firstLeave = i
 						}
 					}
-					// or the fetch happens before the operand's gate is closed, and reads honour the gate
-					gatedFetch := false
-					if !ok && o.marker != nil && readsGated {
-						ops, calls, uncond := c.gateCalls(g, cc)
-						if uncond && len(ops) > 0 && ops[0] == -1 && call.Pos() < calls[0].Pos() {
-							if _, err := c.gatedOperand(g, o); err == nil {
-								gatedFetch = true
+					for i, ev := range p.events {
+						if ev.kind != "expand" {
+							continue
+						}
+						mine := false
+						var visit func(v sval)
+						visit = func(v sval) {
+							switch v.kind {
+							case svStruct:
+								for _, f := range v.fields {
+									visit(f)
+								}
+							case svOpaque:
+								if strings.HasPrefix(v.origin, prefix) {
+									mine = true
+								}
 							}
 						}
+						for _, a := range ev.args {
+							visit(a)
+						}
+						if !mine {
+							continue
+						}
+						fetches++
+						ok := false
+						for _, k := range p.cons[:ev.ncons] {
+							if isD(k.v) && k.c.Kind() == constant.Int && constant.Compare(k.c, token.EQL, zero) && k.truth == !o.nonZero {
+								ok = true
+							}
+						}
+						switch {
+						case ok:
+							guarded++
+						case o.marker != nil && readsGated && firstLeave >= 0 && i < firstLeave:
+							if _, err := c.gatedOperand(g, o); err == nil {
+								gatedFetch++
+							} else {
+								badPos = ev.pos
+							}
+						default:
+							badPos = ev.pos
+						}
 					}
-					switch {
-					case ok:
-						rr.OKp(c.P, key, call.Pos(), "guarded", "fetched only after the deciding operand was tested against 0")
-					case gatedFetch:
-						rr.OKp(c.P, key, call.Pos(), "gated", "fetched before the operand's gate is closed; every variable read is conditional on the gate")
-					default:
-						rr.Badp(c.P, key, call.Pos(), "the operand C would skip is fetched unconditionally: `0 && S` with a non-numeric S fails with `invalid number` instead of yielding 0")
-					}
-					return true
-				})
+				}
+				switch {
+				case badPos.IsValid():
+					rr.Badp(c.P, key, badPos, "the operand C would skip is fetched on a path that has not found it to be the one evaluated: `0 && S` with a non-numeric S fails with `invalid number` instead of yielding 0")
+				case fetches == 0:
+					rr.OKp(c.P, key, cc.Pos(), "not-fetched", "this action does not fetch the operand's value at all")
+				case gatedFetch > 0:
+					rr.OKp(c.P, key, cc.Pos(), "gated", fmt.Sprintf("fetched before the operand's gate is closed (every variable read is conditional on the gate); %d of %d fetches on paths that have tested the deciding operand", guarded, fetches))
+				default:
+					rr.OKp(c.P, key, cc.Pos(), "guarded", fmt.Sprintf("fetched only on paths where the deciding operand was tested against 0 (%d fetches on %d paths)", fetches, len(w.paths)))
+				}
 			}
 		}}
 }
@@ -3497,8 +3565,28 @@ func ruleAR5() Rule {
 				memo[f] = 1
 				return true
 			}
+			// scope: the generated file, what the reduce actions reach, and the entry point with
+			// what it calls before the parser runs - wherever these are declared
+			scope := map[*core.Func]bool{}
+			for f := range c.gate().regionSet {
+				scope[f] = true
+			}
+			if ev := c.fn("interp.(*ExecEnv).Eval"); ev != nil {
+				scope[ev] = true
+				ei := ev.Info()
+				ev.OwnNodes(func(n ast.Node) bool {
+					if call, ok := n.(*ast.CallExpr); ok {
+						if fo := core.StaticCallee(ei, call); fo != nil {
+							if h := c.P.FuncOf(fo); h != nil && h.Pkg == ev.Pkg && !h.Generated {
+								scope[h] = true
+							}
+						}
+					}
+					return true
+				})
+			}
 			for _, f := range c.funcsOfPkg("interp", true) {
-				if c.P.Fset.Position(f.Pos()).Filename != gen {
+				if c.P.Fset.Position(f.Pos()).Filename != gen && !scope[f.Root()] {
 					continue
 				}
 				info := f.Info()
@@ -3727,8 +3815,14 @@ func ruleLP1() Rule {
 				}
 			}
 			n := 0
+			// the helpers are what the reduce actions reach by static calls, wherever they are
+			// declared (the grammar's tail, or a file of their own), plus the rest of the tail
+			below := c.gate().regionSet
 			for _, f := range c.funcsOfPkg("interp", false) {
-				if f.Decl == nil || c.P.Fset.Position(f.Pos()).Filename != gen || f.Short == "(*ExecEnv).Eval" || f.Short == "init" {
+				if f.Decl == nil || f.Short == "(*ExecEnv).Eval" || f.Short == "init" {
+					continue
+				}
+				if c.P.Fset.Position(f.Pos()).Filename != gen && !below[f] {
 					continue
 				}
 				info := f.Info()
